@@ -2354,7 +2354,12 @@ fn main() {
             continue;
         }
         if !plan.keep.is_empty() && !plan.keep.iter().any(|k| *k == key) {
-            continue;
+            // a keep list selects types, impls and traits; a free function or constant the list does not know (a helper added later) is
+            // kept as well, so that the kept code that calls it still resolves - it is verified like any other function without contract
+            if !matches!(item, syn::Item::Fn(_) | syn::Item::Const(_)) {
+                continue;
+            }
+            cx.out.log.push(format!("{}: item `{}` is not on the unit's keep list: kept because it is a free function / constant", short(&plan.file), key));
         }
         if plan.drop.iter().any(|k| *k == key) {
             continue;
